@@ -86,7 +86,7 @@ AUG_SMILES = (
     "OCc1c2c3ccc2cc1c3"[:0] or "c12c3ccc1cc2c3")
 
 
-DEC_FEATURES = ("novel", "multi_index", "ring1", "branch1", "organic", "charged_h", "stereo", "big_ring", "nested")
+DEC_FEATURES = ("novel", "multi_index", "ring1", "branch1", "organic", "charged_h", "stereo", "big_ring", "nested", "compat")
 SMI_THEMES = ("mixed", "kekulize", "stereo", "molgen", "kekulize", "mixed", "decode")
 
 
@@ -113,6 +113,8 @@ def _chunk(rng, feat, novel, pairs):
         body = "".join(rng.choice(("[C]", "[C]", "[N]", "[O]", "[=C]")) for _ in range(n))
         q = n - 2
         return body + rng.choice(("[Ring2]", "[=Ring2]")) + IDX[q // 16] + IDX[q % 16]
+    if feat == "compat":           # pre-2.0 symbols: decoded with compatible=True (see gen_spec)
+        return rng.choice(gen.COMPAT)
     if feat == "nested":
         return "[Branch1][Branch1][C][Branch1][C][F][C]" if rng.random() < 0.5 else "[Branch2][Ring1][C][C][Branch1][Ring1][=O][C][N]"
     raise ValueError(feat)
@@ -179,13 +181,19 @@ def corpus(rng, b=0):
         smi = rng.sample(SMILES_CONC, 6) + [rng.choice(AUG_SMILES)]
     data = gen.dataset_smiles()
     if data:
-        smi += rng.sample(data, 2 if theme != "mixed" else 5)
+        smi += rng.sample(data, 3 if theme != "mixed" else 8)      # real molecules: long strings, many features
     for _ in range(8 if theme == "molgen" else 3):
         K = [gen.DEFAULT]
         m = stubs.gen_mol(rng, K, rng.choice((6, 10, 14))) if rng.random() < 0.6 else stubs.gen_aromatic_mol(rng, K)
         smi.append(m.smiles(rng))
     p_dec = {"kekulize": 0.15, "decode": 1.0}.get(theme, rng.choice((0.3, 0.5, 0.6, 0.9)))
     deep = (b % 40 == 5) if procs.TIER == "quick" else (b % 8 == 5)
+    medium = (b % 24 == 6) if procs.TIER == "quick" else (b % 8 == 6)
+    if medium:
+        # nesting that one call handles easily but several calls together do not, if they share a budget
+        m = rng.choice((320, 470))
+        smi.append("C(" * m + "C" + ")C" * m)
+        smi.append("O(" * (m - 7) + "N" + ")C" * (m - 7))
     if deep:
         # nesting far beyond the interpreter's recursion limit: every such call raises RecursionError
         # when run alone on the current tree; process-global interpreter settings that a change
@@ -197,7 +205,7 @@ def corpus(rng, b=0):
         p_dec = 0.4
     if flood:
         p_dec = max(p_dec, 0.8)
-    info = {"features": feats, "smiles_theme": theme, "flood": flood, "p_dec": p_dec, "deep": deep}
+    info = {"features": feats, "smiles_theme": theme, "flood": flood, "p_dec": p_dec, "deep": deep, "medium": medium}
     return dec, smi, info
 
 
@@ -231,9 +239,14 @@ def gen_spec(base_seed, i, W):
                 x = rng.choice(dec)
                 if info["flood"] and rng.random() < (0.7 if j == 0 else 0.3):
                     x = dec[rng.randrange(2)]      # several flood calls per run: several cache overflows
-                call = ("decode", x, rng.random() < 0.08, rng.random() < 0.3)
+                old_syms = "expl]" in x or "_" in x or "[Expl" in x
+                call = ("decode", x, rng.random() < (0.85 if old_syms else 0.08), rng.random() < 0.3)
             else:
                 call = ("encode", rng.choice(smi), rng.random() < 0.6, rng.random() < 0.3)
+            if info["medium"] and call[0] == "encode" and len(call[1]) > 1200 and not (j == 0 and i % 16 < 8):
+                call = ("encode", smi[0], call[2], call[3])      # the expensive nested inputs only as first calls of half the runs
+            if info["medium"] and j == 0 and i % 16 < 8 and rng.random() < 0.8:
+                call = ("encode", smi[-1 - (t + rng.randrange(2)) % 2], False, False)
             if info["deep"] and j == 0 and rng.random() < 0.6 and (procs.TIER != "quick" or i % 16 < 4):
                 call = rng.choice((("encode", smi[0], False, False), ("encode", smi[1], rng.random() < 0.5, False),
                                    ("decode", dec[2], False, False)))
@@ -247,7 +260,8 @@ def gen_spec(base_seed, i, W):
         threads.append(calls)
     # runs with deep-nesting inputs are pre-empted at source lines (native LINE events): a change
     # that lets such inputs succeed makes them quadratic, which bytecode events cannot afford
-    gran = "native-line" if any(len(c[1]) > 4000 for calls in threads for c in calls) else None
+    gran = "native-line" if any(c[1].count("(") > 250 or c[1].count("[Branch1][P]") > 250
+                                for calls in threads for c in calls) else None
     alone = [[W.alone_run(K, c, gran or "instr") for c in calls] for calls in threads]
     total = sum(s for calls in alone for _, s in calls)
     kind = ("random", "window", "stall", "pct", "shared", "window", "stall", "shared")[i % 8]     # stratified
